@@ -797,10 +797,17 @@ instantiate_path(struct attr_data *attr)
 void
 attr_dict_free(struct attr_dict *dict)
 {
-	if (dict->shared->arch_ops && dict->shared->arch_ops->attr_cleanup)
-		dict->shared->arch_ops->attr_cleanup(dict);
-	if (dict->shared->ops && dict->shared->ops->attr_cleanup)
-		dict->shared->ops->attr_cleanup(dict);
+	/* Format and architecture overrides are installed on the attributes
+	 * of the original dictionary. A cloned dictionary merely points to
+	 * them, so it must not remove them while the original is in use;
+	 * the original is freed last (clones hold a reference to it). */
+	if (!dict->fallback) {
+		if (dict->shared->arch_ops &&
+		    dict->shared->arch_ops->attr_cleanup)
+			dict->shared->arch_ops->attr_cleanup(dict);
+		if (dict->shared->ops && dict->shared->ops->attr_cleanup)
+			dict->shared->ops->attr_cleanup(dict);
+	}
 
 	dealloc_attr(dgattr(dict, GKI_dir_root));
 
